@@ -41,6 +41,7 @@ EX = Explorer()
 
 def toz(x):
     if isinstance(x, SR): return x.t
+    if isinstance(x, z3.ArithRef): return x
     if isinstance(x, bool): raise TypeError
     if isinstance(x, int): return z3.RealVal(x)
     if isinstance(x, float):
